@@ -89,7 +89,7 @@ func isCallTo(v ssa.Value, name string) bool {
 }
 
 // c12ReadFilter checks the expiry filter of a queue Read implementation.
-func c12ReadFilter(c *core.Ctx, rd *ssa.Function, tag string) {
+func c12ReadFilter(c *core.Ctx, rule string, rd *ssa.Function, tag string) {
 	c.Analysed(fname(rd))
 	pins := map[ssa.Value]ssax.AV{}
 	var expCalls []ssa.Instruction
@@ -100,7 +100,7 @@ func c12ReadFilter(c *core.Ctx, rd *ssa.Function, tag string) {
 		}
 	})
 	if len(expCalls) == 0 {
-		c.Violation("C12.R1", tag+"|Read|expiry-test", fpos(c, rd), "Read never tests ElemExpiry: expired messages are handed out")
+		c.Violation(rule, tag+"|Read|expiry-test", fpos(c, rd), "Read never tests ElemExpiry: expired messages are handed out")
 		return
 	}
 	r := ssax.Analyze(rd, ssax.ReachOpts{Pins: pins, CutBackEdges: true})
@@ -120,9 +120,9 @@ func c12ReadFilter(c *core.Ctx, rd *ssa.Function, tag string) {
 			continue
 		}
 		n++
-		c.Check(!r.Reachable(a.Instr), "C12.R1", fmt.Sprintf("%s|Read|expired-not-returned#%d", tag, i), ipos(c, a.Instr), "an expired element never reaches the result", "Read appends an element to its result although ElemExpiry reported it as expired")
+		c.Check(!r.Reachable(a.Instr), rule, fmt.Sprintf("%s|Read|expired-not-returned#%d", tag, i), ipos(c, a.Instr), "an expired element never reaches the result", "Read appends an element to its result although ElemExpiry reported it as expired")
 	}
-	c.Check(n > 0, "C12.R1", tag+"|Read|result-append", fpos(c, rd), "result built by append", "Read never appends to its result")
+	c.Check(n > 0, rule, tag+"|Read|result-append", fpos(c, rd), "result built by append", "Read never appends to its result")
 	// dropped and reported: from the expiry test (true) no path to the end of the iteration avoids NotifyDropped
 	isDrop := ssax.CallMatching(ssax.ByMethod("persistence/queue.Notifier", "NotifyDropped"))
 	for i, ec := range expCalls {
@@ -144,7 +144,7 @@ func c12ReadFilter(c *core.Ctx, rd *ssa.Function, tag string) {
 			return false
 		}
 		_, bypass := ssax.PathQuery{Fn: rd, From: ec, To: endOfIter, Avoid: isDrop, Feasible: r}.Find()
-		c.Check(!bypass, "C12.R1", fmt.Sprintf("%s|Read|expired-reported#%d", tag, i), ipos(c, ec), "an expired element is reported through NotifyDropped", "Read can discard an expired element without reporting it (NotifyDropped)")
+		c.Check(!bypass, rule, fmt.Sprintf("%s|Read|expired-reported#%d", tag, i), ipos(c, ec), "an expired element is reported through NotifyDropped", "Read can discard an expired element without reporting it (NotifyDropped)")
 	}
 }
 
@@ -152,8 +152,8 @@ func c12(c *core.Ctx) {
 	c.Explain("C12 (message expiry): decided statically — R1 in both queue back ends Read never appends an element for which ElemExpiry holds and reports it through NotifyDropped; the in-flight renewal of the deadline in ReadInflight applies only to elements that already carry a packet id; R2 in addMsgToQueueLocked the message's interval (seconds) and the configured maximum (time.Duration) are compared in the same unit, and when the interval exceeds the maximum the deadline is computed from the maximum; R3 pollNewMessages forwards 'received interval − waited' (never 0 for a non-zero interval, no unsigned underflow, never the elapsed time or a deadline-derived value) and samples the clock after the blocking queue read.")
 	c.NotDecided("real-time behaviour (when the clock crosses the deadline), arithmetic of whole-second rounding")
 	p := c.P
-	c12ReadFilter(c, p.Func("persistence/queue/mem", "(*Queue).Read"), "mem")
-	c12ReadFilter(c, p.Func("persistence/queue/redis", "(*Queue).Read"), "redis")
+	c12ReadFilter(c, "C12.R1", p.Func("persistence/queue/mem", "(*Queue).Read"), "mem")
+	c12ReadFilter(c, "C12.R1", p.Func("persistence/queue/redis", "(*Queue).Read"), "redis")
 
 	// in-flight renewal only for elements with an id
 	for _, pk := range []string{"persistence/queue/mem", "persistence/queue/redis"} {
